@@ -42,7 +42,9 @@ VOCAB = KEYWORDS * 3 + REGS * 2 + CLASSES + MARKS * 2 + NAMES * 3 + LITS * 2
 
 # shapes that sit on the edges of the grammar (always run)
 CORPUS = ['return 5 print 1', 'return', 'assign t -8:00', 'hue -8:00', 'assign t 8:00 hue t set all', 'time at 8:00 units raw', 'end', 'begin on all end',
-          'stage row 1', 'set default begin', 'set "a" begin get "b" end', 'repeat all as x with y from 1 to', 'printf "{" 1', 'printf "}" 1', 'printf "{}{}" 1',
+          'stage row 1', 'set default begin', 'set "a" begin get "b" end', 'repeat all as x with y from 1 to', 'repeat with x in "A" and "B" begin set x end', 'repeat with x in all begin on x end', 'repeat in all as x begin on x end',
+          'repeat with x in group "G" begin on x end print x', 'repeat with x in "A" as y begin on y end', 'repeat in "A" as y with x in "B" begin on y end',
+          'printf "{" 1', 'printf "}" 1', 'printf "{}{}" 1',
           'printf "{0} {}" 1 2', 'printf "{:d}" 1.5', 'printf "{x}"', 'printf 5', 'print [sqrt "a"]', 'define f return 1 print [f]', 'define f with begin on all end',
           'define f with a a begin on all end', 'define 5 6', 'define x', 'assign', 'assign x', 'if', 'if 1', 'else on all', 'repeat', 'repeat 2', 'repeat while',
           'repeat in as x on all', 'repeat with i from 1 to 2', 'set', 'set "a" zone', 'set "a" row column', 'set "a" and', 'on all and "a"', 'get', 'get all',
@@ -171,7 +173,10 @@ def inject(rng, pick=None):
         'nested-routine': ['define outer begin define inner on all end', 'define o2 with a begin define i2 with b begin print b end end'],
         'missing-end': ['repeat 2 begin on all', 'if {1 < 2} begin on all', 'define f begin on all', 'set "Top" begin stage row 1', 'repeat begin if 1 begin on all end'],
         'unbalanced': ['hue {1 + 2', 'hue {(1 + 2}', 'hue {1 + 2)}', 'print [round 1', 'hue {1 + 2}}', 'define f with a begin return {a end', 'print ]',
-                       'assign x {2 * (3 + 4}', 'assign x {[floor 2.5}'],
+                       'assign x {2 * (3 + 4}', 'assign x {[floor 2.5}',
+                       # a quoted mark is a string, not the mark
+                       'assign x {1 + 2 "}"', 'if {3 > 2 "}" on all', 'hue {(1 + 2 ")" }', 'print [round 1 "]"', 'hue "{" 1 + 2}', 'print "[" round 1]',
+                       'define f with a begin return {a "}" end'],
         'bad-time-pattern': ['time at 25:00 on all', 'time at 12:60 on all', 'time at 12:8* on all', 'time at **:08 on all', 'time at 12:5 on all',
                              'time at 3*:00 on all', 'time at 8:00 or 24:00 on all', 'time at : on all', 'time at 8:00 or on all', 'time at 99:99 wait'],
     }
@@ -208,10 +213,25 @@ def compile_guarded(text):
     return box.get('job'), box.get('raised', ''), th.is_alive()
 
 
+# the operands each of these instructions cannot do without (machine.py dereferences them): an accepted program in which
+# one is missing is a compiler-made fault however it shows at run time (`repeat with x in "A" and "B"` once compiled to a
+# POP without a destination, so that x never got a value and the VM stopped "pushing None")
+NEEDS = {'POP': (0,), 'PUSH': (0,), 'MOVE': (0, 1), 'MOVEQ': (1,), 'JSR': (0,), 'JUMP': (0, 1), 'PARAM': (0,), 'OP': (0,)}
+
+
+def malformed(program):
+    out = []
+    for n, inst in enumerate(program or ()):
+        need = NEEDS.get(getattr(getattr(inst, 'op_code', None), 'name', ''), ())
+        if any(getattr(inst, 'param%d' % k, None) is None for k in need):
+            out.append('%d: %s' % (n, inst))
+    return out
+
+
 def one(world, text, rule):
     job, raised, hung = compile_guarded(text)
     rec = {'rule': rule, 'raised': raised, 'hung': bool(hung), 'accepted': False, 'lined_messages': 0, 'job_program_none': True,
-           'fault': '', 'run_raised': False}
+           'fault': '', 'run_raised': False, 'malformed': 0}
     detail = ''
     if job is not None and not hung and not raised:
         program = job.program
@@ -220,6 +240,8 @@ def one(world, text, rule):
         errors = job.compile_errors or ''
         rec['lined_messages'] = len(LINED.findall(errors))
         detail = errors.strip()[:160]
+        bad = malformed(program)
+        rec['malformed'] = len(bad)
         if rec['accepted']:
             stopper = StopAt(job, 5000)
             res = runner.run_script(world, text, job=job, limit=10.0)
@@ -234,6 +256,8 @@ def one(world, text, rule):
             if res.timed_out:
                 rec['hung'] = True
                 detail = 'execution had to be stopped by the watchdog'
+            if bad and not rec['hung']:
+                detail = 'instruction without its operand: %s; %s' % (bad[0], detail)
     return rec, detail
 
 
@@ -301,6 +325,8 @@ def run(report, replay=None):
                 sig = 'crash:' + rec['raised'].split(':')[0]
             elif why == 'RuleRejected':
                 sig = 'rule-accepted:' + rule
+            elif why == 'AcceptedWellFormed':
+                sig = 'malformed-code:' + re.sub(r'^\d+: ', '', detail.split(';')[0].replace('instruction without its operand: ', ''))[:40]
             elif why == 'AcceptedRuns':
                 sig = 'vm-fault:' + re.sub(r'[^a-zA-Z ]', '', detail.replace('Machine stopped due to', ''))[:40].strip()
             else:
